@@ -2,4 +2,4 @@ From Coq Require Import Extraction ExtrOcamlBasic.
 From SV Require Import Base.Bytes Model.Headers Model.IOSched Spec.ChunkDecode Model.Chunked Spec.RespParse Model.Response.
 Extraction Language OCaml.
 Extraction "c06_model.ml" write_http_response write_http_response_prefix oracle_c06 reason_text_ok value_ok
-  head_ok collides body_sound event_message_bytes parse_response full_wire.
+  head_ok collides body_sound event_message_bytes piece_max_N parse_response full_wire.
